@@ -312,10 +312,11 @@ theorem hp_chunking :
   C08_chunking_independent .HP hpCfg hp0 hp0_new rA rB rfl fillR_rA fillR_rB _ _
     ⟨rfl, rfl, ⟨rfl, fillR_rB, fillR_rA⟩, rfl, rfl, trivial⟩
 
-/-- the one-piece reader evaluated: `ReadFrom` takes the five bytes with one `Read`; the next
-    `Read` returns `(0, nil)`, which `ReadFrom` reports as io.EOF -/
+/-- the one-piece reader evaluated: `ReadFrom` takes the five bytes with one `Read`; the
+    remaining responses answer `(0, nil)` ("nothing happened", `ReadFrom` calls `Read` again)
+    until the script is exhausted: io.EOF -/
 theorem osap0_refillB :
-    osap0.shrink.1.readFrom rB = (osap1, ⟨[], [(9, 0), (9, 0), (9, 0)]⟩, 5, .eof) := by
+    osap0.shrink.1.readFrom rB = (osap1, ⟨[], []⟩, 5, .eof) := by
   simp [Parser.shrink, Parser.readFrom, osap0, osap1, rB, dat, bc8, readFrom, readLoop,
     shrink, init, grow, Facts.margin, Facts.chunkSize, Facts.growMin, min3, errOfCode]
 
